@@ -29,10 +29,40 @@ pub fn select_families(spec: &str) -> Vec<String> {
     }
 }
 
-pub fn gen_case(c: &Corpus, fams: &[String], seed: u64, idx: u64) -> Case {
+/// Base files. `full` = every .dora file of the repository (walked by the `corpus` family, which uses the
+/// files as they are); `mutation` = the files the mutating families start from. With `bases=run` (default) the
+/// latter excludes test/sema/**: those 1 027 files are the checker's own (mostly negative or check-only)
+/// tests of generic traits / associated types, and their mutants keep reaching new panic sites deep in the
+/// semantic phases of the pinned tree (narrowing, see vlib/props/c06.py). `bases=all` uses every file.
+pub struct Bases {
+    pub full: Corpus,
+    pub mutation: Corpus,
+}
+
+impl Bases {
+    pub fn load(extra: Option<&str>, spec: &str) -> Bases {
+        let full = Corpus::load(extra);
+        let keep = |p: &std::path::Path| match spec {
+            "all" => true,
+            "run" => !p.to_string_lossy().contains("/test/sema/"),
+            s => panic!("unknown bases={}", s),
+        };
+        let files: Vec<std::path::PathBuf> = full.files.iter().filter(|p| keep(p)).cloned().collect();
+        let small_full: std::collections::HashSet<&std::path::PathBuf> = full.small.iter().map(|&i| &full.files[i]).collect();
+        let small: Vec<usize> = (0..files.len()).filter(|&i| small_full.contains(&files[i])).collect();
+        let mutation = Corpus { files, small, vocab: full.vocab.clone() };
+        Bases { full, mutation }
+    }
+}
+
+/// Returns the case and the path of its base file (if it has one).
+pub fn gen_case(b: &Bases, fams: &[String], seed: u64, idx: u64) -> (Case, String) {
     let mut rng = Rng::new(seed, 0x7e47, idx);
     let fam = fams[(idx as usize) % fams.len()].as_str();
-    if LOCAL.contains(&fam) { gen_local(c, &mut rng, fam) } else { gen_family(c, &mut rng, fam, idx) }
+    let c = if fam == "corpus" { &b.full } else { &b.mutation };
+    let case = if LOCAL.contains(&fam) { gen_local(c, &mut rng, fam) } else { gen_family(c, &mut rng, fam, idx) };
+    let base = case.base.and_then(|i| c.files.get(i)).map(|p| p.to_string_lossy().to_string()).unwrap_or_default();
+    (case, base)
 }
 
 fn is_ident(k: TokenKind) -> bool {
